@@ -1099,6 +1099,7 @@ def set_common_charges(sites, new_charges='same', new_names=None, new_mod=None, 
                             raise ValueError('float `factor` causes non-integer charges')
                     new_qflat[:, new_i] += old_qflat_i
         # update the site with the new charges
+        new_qflat = new_chinfo.make_valid(new_qflat)  # negative factors with `mod` > 1
         leg_unsorted = npc.LegCharge.from_qflat(new_chinfo, new_qflat, site.leg.qconj)
         if sort_charge:
             perm_qind, leg = leg_unsorted.sort()
